@@ -90,6 +90,22 @@ class PathLimit(Exception):
     pass
 
 
+_KNOWN = None
+
+
+def known_functions():
+    """Qualified names of the repo functions that existed on the pinned tree (obligations/known_functions.json)."""
+    global _KNOWN
+    if _KNOWN is None:
+        import json
+        from pathlib import Path
+        try:
+            _KNOWN = set(json.loads((Path(__file__).resolve().parent.parent / 'obligations' / 'known_functions.json').read_text())['functions'])
+        except Exception:
+            _KNOWN = set()
+    return _KNOWN
+
+
 class Interp:
     """Subclass / configure: on_call(call, name, args, kwargs, state) -> None | list[(kind, value, state)]."""
 
@@ -100,6 +116,7 @@ class Interp:
         self.n_paths = 0
         self.may_raise = {}        # callee text -> exception name
         self.inline = set()        # FuncInfo nodes (ast) allowed to be inlined
+        self.auto_inline = True    # callees introduced after the pinned tree are inlined (see known_functions)
         self.fi_stack = []
 
     # ------------------------------------------------------------------ hooks
@@ -247,7 +264,28 @@ class Interp:
         return [((C(txt) if txt is not None else T('fstring', unparse(e))), s) for txt, s in acc]
 
     def ev_Lambda(self, e, st):
+        # closures are kept by their text (the term stays comparable); applied by apply_lambda
+        if not hasattr(self, '_lambdas'):
+            self._lambdas = {}
+        self._lambdas[unparse(e)] = (e, dict(st.env))
         return [(T('lambda', unparse(e)), st)]
+
+    def apply_lambda(self, fterm, args, st):
+        """-> list[(value, state)] of applying a lambda term to positional arguments, or None when it is not a known lambda."""
+        if not (is_t(fterm) and fterm[1] == 'lambda' and len(fterm) >= 3 and fterm[2] in getattr(self, '_lambdas', {})):
+            return None
+        node, cenv = self._lambdas[fterm[2]]
+        a = node.args
+        if a.vararg or a.kwarg or a.kwonlyargs or len(a.args) != len(args):
+            return None
+        env = dict(cenv)
+        for p_, v_ in zip(a.args, args):
+            env[p_.arg] = v_
+        s0 = State(env, st.heap, st.facts, st.trace, st.depth + 1, st.seq)
+        out = []
+        for val, s in self.ev(node.body, s0):
+            out.append((val, State(st.env, s.heap, s.facts, s.trace, st.depth, s.seq)))
+        return out
 
     def ev_Dict(self, e, st):
         return [(T('dict', unparse(e)), st)]
@@ -285,8 +323,41 @@ class Interp:
         return [(T('comp', unparse(e)), st)]
 
     def ev_GeneratorExp(self, e, st):
+        # a generator over a LITERAL tuple / list (e.g. unpacked into two names) is evaluated like the list comprehension; anything else stays opaque
+        if len(e.generators) == 1 and isinstance(e.generators[0].iter, (ast.Tuple, ast.List)) and not e.generators[0].ifs:
+            return self.ev_ListComp(e, st)
         return [(T('comp', unparse(e)), st)]
-    ev_SetComp = ev_DictComp = ev_GeneratorExp
+
+    def ev_SetComp(self, e, st):
+        return [(T('comp', unparse(e)), st)]
+
+    def ev_DictComp(self, e, st):
+        """{k: v for x in <concrete abstract list>}: evaluated element by element like `d = {}; for x in ..: d[k] = v` (one `setitem` event per entry, in order)."""
+        if len(e.generators) == 1 and not e.generators[0].is_async and not e.generators[0].ifs:
+            g = e.generators[0]
+            res = []
+            for itv, s0 in self.ev(g.iter, st):
+                itd = self.deref(itv, s0) if hasattr(self, 'deref') else itv
+                if not (is_t(itd) and itd[1] in ('list', 'tuple') and not any(is_t(x) and x[1] == 'star' for x in itd[2:])):
+                    res.append((T('comp', unparse(e)), s0))
+                    continue
+                n, s1 = s0.fresh()
+                dct = T('dictobj', C(n))
+                work = [s1]
+                for el in itd[2:]:
+                    nxt = []
+                    for s in work:
+                        for s2 in self.assign_to(g.target, el, s):
+                            for kv, s3 in self.ev(e.key, s2):
+                                for vv, s4 in self.ev(e.value, s3):
+                                    nxt.append(s4.emit('setitem', dct, unparse(e.key), vv, kv))
+                    work = nxt
+                for s in work:
+                    s = s.copy()
+                    s.env = dict(st.env)
+                    res.append((dct, s))
+            return res
+        return [(T('comp', unparse(e)), st)]
 
     def ev_BinOp(self, e, st):
         out = []
@@ -441,6 +512,94 @@ class Interp:
             tg = self.repo.resolve_call(self.fi_stack[-1], call, virtual=False)
             tg = [t for t in tg if t.node in self.inline]
             if len(tg) == 1:
+                return self.call_function(tg[0], args, kwargs, st, recv=recv)
+        # 'text {} {}'.format(const, const) folds like % formatting
+        if isinstance(call.func, ast.Attribute) and call.func.attr == 'format' and is_c(recv) and isinstance(recv[1], str) and not kwargs and \
+                all(is_c(a_) and isinstance(a_[1], (str, int)) for a_ in args):
+            try:
+                return [('ok', C(recv[1].format(*[a_[1] for a_ in args])), st)]
+            except Exception:
+                pass
+        # a method called through a local that holds the walked object (`reader = self; reader.m()`) is the method of that object
+        if isinstance(call.func, ast.Attribute) and self.fi_stack and self.fi_stack[-1].cls is not None and st.depth < self.inline_depth and \
+                is_t(recv) and (recv[1] in ('self', 'obj') or recv == st.env.get(self.fi_stack[-1].self_name or '')):
+            m_ = self.repo.lookup_method(self.fi_stack[-1].cls, call.func.attr)
+            if m_ is not None and m_.node in self.inline:
+                return self.call_function(m_, args, kwargs, st, recv=recv)
+        # a local bound to a lambda is applied; functools.reduce over a concrete abstract list is folded
+        if isinstance(call.func, ast.Name) and not kwargs:
+            r_ = self.apply_lambda(st.env.get(call.func.id), args, st)
+            if r_ is not None:
+                return [('ok', v, s_) for v, s_ in r_]
+        if name in ('reduce', 'functools.reduce') and recv is None and len(args) in (2, 3) and not kwargs:
+            seq = self.deref(args[1], st) if hasattr(self, 'deref') else args[1]
+            if is_t(seq) and seq[1] in ('list', 'tuple') and not any(is_t(x) and x[1] == 'star' for x in seq[2:]):
+                items = list(seq[2:])
+                if len(args) == 3:
+                    work = [(args[2], st)]
+                elif items:
+                    work, items = [(items[0], st)], items[1:]
+                else:
+                    work = None
+                ok_ = work is not None
+                for el in items:
+                    nxt = []
+                    for acc, s_ in work:
+                        r_ = self.apply_lambda(args[0], [acc, el], s_)
+                        if r_ is None:
+                            ok_ = False
+                            break
+                        nxt.extend(r_)
+                    if not ok_:
+                        break
+                    work = nxt
+                if ok_:
+                    return [('ok', v, s_) for v, s_ in work]
+        # sorted(<concrete abstract list>, key=<lambda giving a truth value>): a stable two-way partition (False keys first), forking on the truth of every key
+        if name == 'sorted' and recv is None and len(args) == 1 and set(kwargs) <= {'key', 'reverse'} and 'key' in kwargs and \
+                (kwargs.get('reverse') in (None, C(False))):
+            seq = self.deref(args[0], st)
+            if is_t(seq) and seq[1] in ('list', 'tuple') and not any(is_t(x) and x[1] == 'star' for x in seq[2:]) and len(seq) - 2 <= 4:
+                work = [((), st)]
+                ok_ = True
+                for el in seq[2:]:
+                    nxt = []
+                    for keys_, s_ in work:
+                        r_ = self.apply_lambda(kwargs['key'], [el], s_)
+                        if r_ is None:
+                            ok_ = False
+                            break
+                        for kv, s2 in r_:
+                            if is_t(kv) and kv[1] == 'call' and kv[2] == 'bool' and len(kv) == 5:
+                                kv = kv[4]
+                            elif not is_c(kv):
+                                ok_ = False
+                                break
+                            for b_, s3 in self.truth_of(kv, s2):
+                                nxt.append((keys_ + (b_,), s3))
+                        if not ok_:
+                            break
+                    if not ok_:
+                        break
+                    work = nxt
+                if ok_:
+                    outs_ = []
+                    for keys_, s_ in work:
+                        items = [el for el, b_ in zip(seq[2:], keys_) if not b_] + [el for el, b_ in zip(seq[2:], keys_) if b_]
+                        if self.model_lists:
+                            ref, s2 = self._alloc(T('list', *items), s_)
+                            outs_.append(('ok', ref, s2))
+                        else:
+                            outs_.append(('ok', T('list', *items), s_))
+                    return outs_
+        # helpers that did not exist when the rules were written (extracted by a refactoring) are transparent: inline them
+        if self.fi_stack and self.auto_inline and st.depth < self.inline_depth + 3:
+            try:
+                tg = self.repo.resolve_call(self.fi_stack[-1], call, virtual=False)
+            except Exception:
+                tg = []
+            tg = [t for t in tg if t.where not in known_functions() and not any(f.node is t.node for f in self.fi_stack)]
+            if len(tg) == 1 and len(list(ast.walk(tg[0].node))) < 600:
                 return self.call_function(tg[0], args, kwargs, st, recv=recv)
         out = []
         if self.model_lists:
